@@ -296,6 +296,8 @@ def plain_write_skeleton(c):
         log.append(("lang", l[0] if l else None, len([e_ for e_ in log if e_[0] == "copy"])))
         return f"<{l[0] if l else '?'}#{len(log)}>"
     c.interp.contracts[q] = h_lang
+    from pyvc.verify import require_callees
+    require_callees(c.interp.contracts)      # (a renamed callee makes this contract undecided, never a violation)
     for turn in (1, 2):
         del log[:]
         r = c.call(W.write, w, cs, compare=False)
